@@ -8,6 +8,8 @@ Search (model independent): the by-construction expectation of every table cell 
 """
 import itertools
 import json
+import sys
+import warnings
 
 from harness import common, gendoc, runmodel
 from harness.common import Sym
@@ -355,8 +357,48 @@ def option_histories(ctx):
     ctx.count('option_histories', n)
 
 
+def foreign_outcomes(ctx):
+    """exceptions that a test framework uses to say FAILED (pytest.fail(), a `pytest.raises` block in which nothing was raised, an
+    unexpected pass of xfail(strict)...) are not ways of passing: a doctest whose code raises one never comes out as passed, and
+    nothing behind the raising statement runs.  (What else happens - the exception escapes the run or is recorded - is C09's.)"""
+    from xdoctest import doctest_example
+    try:
+        import pytest      # noqa
+    except ImportError:
+        return
+    raisers = ["pytest.fail('must surface')", "pytest.fail('must surface', pytrace=False)",
+               "with pytest.raises(KeyError):\n...     noraise = 1", "pytest.xfail('known to be broken')", "pytest.exit('stop everything')"]
+    for raiser in raisers:
+        for want in (None, 'Traceback (most recent call last):\nFailed: must surface', 'ignored text'):
+            for oe in ('return', 'raise'):
+                for flags in ('', '>>> # xdoctest: +IGNORE_WANT\n', '>>> # xdoctest: +IGNORE_EXCEPTION_DETAIL\n'):
+                    ctx.evaluations += 1
+                    doc = flags + '>>> import pytest\n>>> ran = []\n>>> ' + raiser + ('\n' + want if want else '') + "\n>>> ran.append('after')\n"
+                    ex = doctest_example.DocTest(docsrc=doc, lineno=1)
+                    ex.mode = 'native'
+                    so = sys.stdout
+                    outcome = None
+                    try:
+                        with warnings.catch_warnings():
+                            warnings.simplefilter('ignore')
+                            summ = ex.run(on_error=oe, verbose=0)
+                        outcome = 'passed' if summ['passed'] else ('failed' if summ['failed'] else 'skipped')
+                    except BaseException as e:      # noqa
+                        outcome = 'raised ' + type(e).__name__
+                    finally:
+                        sys.stdout = so
+                    if raiser.startswith('pytest.xfail') or raiser.startswith('pytest.exit'):
+                        continue        # (xfail / exit are not failures by pytest's own meaning: observed, no expectation)
+                    if outcome in ('passed', 'skipped'):
+                        ctx.violation('exception-verdict', {'what': 'the doctest code raises a FAILURE outcome of the test framework (%s) and the doctest is reported %s' % (raiser.split(chr(10))[0], outcome),
+                                                            'doctest': doc, 'on_error': oe, 'expected': 'not passed', 'theorem_or_correspondence': 'C03 on DocTest.run: outcome exceptions of pytest that mean failure'}, True)
+                        return
+    ctx.count('foreign_outcome_cases', len(raisers) * 3 * 2 * 3)
+
+
 def run(ctx):
     step_level(ctx)
+    foreign_outcomes(ctx)
     option_histories(ctx)
     # 'exceptions are never swallowed': the context manager around every part lets every exception through (truthy, falsy, BaseException)
     from harness.props import c12
